@@ -8,6 +8,8 @@ with values (`Buildable`) and every probe key / prefix.
 -/
 import LinVerif.Lemmas.C20Get
 import LinVerif.Lemmas.C20SeekList
+import LinVerif.Lemmas.C20Merge
+import LinVerif.Lemmas.C20Bits
 import LinVerif.Model.Louds
 import LinVerif.Model.TrieBucket
 import LinVerif.Generated.C20
@@ -17,39 +19,6 @@ set_option linter.unusedVariables false
 
 namespace LinVerif.Props.C20
 open LinVerif.TrieTree LinVerif.Lemmas.C20
-
-/-- the inputs of `Build`: keys strictly increasing (sorted and distinct), every byte `< 256`, at
-least one key, and not the key set {""} (for which the Go code panics, see `Neg`). -/
-structure Buildable (kvs : List KV) : Prop where
-  sorted : sortedKeys kvs = true
-  bytes : bytesOK kvs = true
-  nonempty : kvs ≠ []
-  notOnlyEmptyKey : ∀ v, kvs ≠ [([], v)]
-
-theorem Buildable.shape {kvs : List KV} (h : Buildable kvs) :
-    2 ≤ kvs.length ∨ ∃ k v, kvs = [(k, v)] ∧ k ≠ [] := by
-  match kvs, h with
-  | [], h => exact absurd rfl h.nonempty
-  | [(k, v)], h =>
-    right
-    refine ⟨k, v, rfl, ?_⟩
-    intro e; subst e
-    exact h.notOnlyEmptyKey v rfl
-  | _ :: _ :: _, _ => left; simp
-
-/-- everything the build specification gives for a buildable input -/
-theorem build_spec {kvs : List KV} (h : Buildable kvs) :
-    ∃ t, build kvs = some t ∧ iter t = kvs ∧ WFNode t ∧
-      ((∀ v, kvs ≠ [([255], v)]) → NoSingleFF t.entries) := by
-  obtain ⟨n, h1, h2, h3, h4, _⟩ := (build_spec_all (2 * kvSize kvs + 2)).1 [] kvs (Nat.le_refl _)
-    ((sortedKeys_iff kvs).1 h.sorted) ((bytesOK_iff kvs).1 h.bytes) h.shape
-  refine ⟨n, h1, ?_, h3, h4⟩
-  have := h2 []
-  simp only [List.nil_append] at this
-  rw [iter, this]
-  induction kvs with
-  | nil => rfl
-  | cons x xs ih => simp
 
 /-- `Build` does not panic on a buildable input -/
 theorem build_total {kvs : List KV} (h : Buildable kvs) : ∃ t, build kvs = some t := by
@@ -217,6 +186,120 @@ theorem prefix_iter_eq_filter {kvs : List KV} {t : Node} (step : Bool) (h : Buil
 theorem scan_shortcut_sound (cur : Nat) (labels : List Nat) (hmono : labels.Pairwise (· ≤ ·))
     (hlo : ∀ l ∈ labels, cur ≤ l) : scanGroup cur labels = (labels.takeWhile (· == cur)).length :=
   scanGroup_eq cur labels hmono hlo
+
+/-! ### trie buckets (index/model, index/v1) -/
+section Bucket
+open LinVerif.TrieBucket
+
+/-- `TrieBucket.GetValue` over built tries with pairwise distinct keys = lookup in the sorted map
+of all their pairs (`_partial` for the same reason as `get_eq_lookup_partial`) -/
+theorem bucket_get_eq_lookup_partial (eon : Bool) {r : List Node} (hr : ∀ t ∈ r, Built t)
+    (hd : DistinctKeys (r.flatMap iter)) (hff : eon = false → ∀ v, ([255], v) ∉ r.flatMap iter) (key : Key) :
+    bucketGet eon r key = lookup key (sortKVs (r.flatMap iter)) := by
+  rw [bucketGet_spec eon r key, lookup_perm hd (sortKVs_perm _).symm]
+  intro t ht
+  obtain ⟨kvs, hb, hbt⟩ := hr t ht
+  rw [get_eq_lookup_partial eon hb hbt _ key, iter_eq_sorted hb hbt]
+  intro he v e
+  refine hff he v (List.mem_flatMap.2 ⟨t, ht, ?_⟩)
+  rw [iter_eq_sorted hb hbt, e]; exact List.mem_cons_self ..
+
+/-- `TrieBucketBuilder.Write` (index/v1 `WriteKVs`): sorting, cutting into blocks of `blockSize`
+keys and building one trie per block stores exactly the sorted pairs. The empty key needs
+`blockSize ≥ 2` and a second key (else its block is the key set {""}: `Neg`). -/
+theorem bucket_write_eq_sorted {bs : Nat} (hbs : 1 ≤ bs) {kvs : List KV} (hd : DistinctKeys kvs)
+    (hb : bytesOK kvs = true) (hE : (∀ v, ([], v) ∉ kvs) ∨ (2 ≤ bs ∧ 2 ≤ kvs.length)) :
+    ∃ r, buildAll (writeBlocks bs kvs) = some r ∧ (∀ t ∈ r, Built t) ∧ r.flatMap iter = sortKVs kvs :=
+  builder_write_spec hbs hd ((bytesOK_iff kvs).1 hb) hE
+
+/-- **merge = rebuild from the union**: `TrieBucket.Write` (index/v1 `indexKVMerger.Merge`) on
+built tries with pairwise distinct keys yields built tries holding a permutation of all pairs … -/
+theorem merge_eq_union (step : Bool) {bs : Nat} (hbs : 1 ≤ bs) {ts : List Node} (hts : ∀ t ∈ ts, Built t)
+    (hd : DistinctKeys (ts.flatMap iter)) (hE : (∀ v, ([], v) ∉ ts.flatMap iter) ∨ 2 ≤ bs) :
+    ∃ r, mergeTries step bs ts = some r ∧ (∀ t ∈ r, Built t) ∧ (r.flatMap iter).Perm (ts.flatMap iter) :=
+  merge_spec hbs hts hd hE
+
+/-- … so lookups in the merged bucket answer like the sorted map of the union of the pairs -/
+theorem merge_get_eq_union_lookup_partial (eon step : Bool) {bs : Nat} (hbs : 1 ≤ bs) {ts : List Node}
+    (hts : ∀ t ∈ ts, Built t) (hd : DistinctKeys (ts.flatMap iter))
+    (hE : (∀ v, ([], v) ∉ ts.flatMap iter) ∨ 2 ≤ bs)
+    (hff : eon = false → ∀ v, ([255], v) ∉ ts.flatMap iter) :
+    ∃ r, mergeTries step bs ts = some r ∧
+      ∀ key, bucketGet eon r key = lookup key (sortKVs (ts.flatMap iter)) := by
+  obtain ⟨r, hr1, hr2, hr3⟩ := merge_spec (step := step) hbs hts hd hE
+  refine ⟨r, hr1, fun key => ?_⟩
+  have hdr : DistinctKeys (r.flatMap iter) := hd.perm hr3.symm
+  rw [bucket_get_eq_lookup_partial eon hr2 hdr (fun he v hv => hff he v (hr3.mem_iff.1 hv)) key]
+  have h1 : (sortKVs (r.flatMap iter)).Perm (sortKVs (ts.flatMap iter)) :=
+    ((sortKVs_perm _).trans hr3).trans (sortKVs_perm _).symm
+  exact lookup_perm (hdr.perm (sortKVs_perm _).symm) h1 key
+
+end Bucket
+
+/-! ### layer 2: rank / select on bit vectors and the LOUDS position formulas -/
+section Layer2
+open LinVerif.Louds
+
+/-- `select (rank i) = i` on set bits, for all vectors -/
+theorem louds_select_rank (bs : List Bool) (i : Nat) (h : bs[i]? = some true) : select bs (rank bs i) = i :=
+  select_rank bs i h
+
+/-- `rank (select k) = k` and `select k` is a set bit, for `1 ≤ k ≤ popcount`, for all vectors -/
+theorem louds_rank_select (bs : List Bool) (k : Nat) (h1 : 1 ≤ k) (h2 : k ≤ popcount bs) :
+    rank bs (select bs k) = k ∧ bs[select bs k]? = some true :=
+  rank_select bs k h1 h2
+
+/-- rank.go: the block table (`rankSparseBlockSize = 512`) + in-block popcount computes `rank` -/
+theorem louds_rankGo_eq_rank (bs : List Bool) (pos : Nat) (h : pos < bs.length) :
+    rankGo (rankLut bs) bs pos = rank bs pos :=
+  rankGo_eq_rank bs pos h
+
+/-- select.go: the sampled table (`selectSampleInterval = 64`) + scan computes `select`, given
+that bit 0 is set (the root's first label; `Select` relies on it through `rankLeft--`) -/
+theorem louds_selectGo_eq_select (bs : List Bool) (k : Nat) (h0 : bs.head? = some true) (h1 : 1 ≤ k)
+    (h2 : k ≤ popcount bs) : selectGo (selectLut bs) bs k = select bs k :=
+  selectGo_eq_select bs k h0 h1 h2
+
+/-- `firstLabelPos(n) = Select(louds, n+1)` is the offset of node n's labels: the sum of the
+sizes of the nodes before it, for every list of node sizes ≥ 1 -/
+theorem louds_firstLabelPos (sizes : List Nat) (n : Nat) (hpos : ∀ s ∈ sizes, 1 ≤ s) (hn : n < sizes.length) :
+    selectGo (selectLut (loudsOfSizes sizes)) (loudsOfSizes sizes) (n + 1) = (sizes.take n).sum := by
+  have hne : sizes ≠ [] := by intro e; rw [e] at hn; simp at hn
+  obtain ⟨s, rest, rfl⟩ := List.exists_cons_of_ne_nil hne
+  rw [selectGo_eq_select _ _ (head_loudsOfSizes s rest (hpos s (List.mem_cons_self ..))) (by omega)
+    (by rw [popcount_loudsOfSizes _ hpos]; omega)]
+  exact select_loudsOfSizes _ n hpos hn
+
+/-- `nodeSize(pos) = DistanceToNextSetBit(louds, pos)` at a node's first label is the node's size
+(except at the very last bit of the vector, which is a node of its own only in a one-key trie) -/
+theorem louds_nodeSize (sizes : List Nat) (n : Nat) (hpos : ∀ s ∈ sizes, 1 ≤ s) (hn : n < sizes.length)
+    (hnotlast : (sizes.take n).sum + 1 < sizes.sum) :
+    distNext (loudsOfSizes sizes) ((sizes.take n).sum) = sizes[n] :=
+  distNext_loudsOfSizes sizes n hpos hn hnotlast
+
+/-- `valuePos(pos) = pos - Rank(hasChild, pos)` is the index of a child-less label among the
+child-less labels: the position of its value in the value vector -/
+theorem louds_valuePos (hasChild : List Bool) (pos : Nat) (h : hasChild[pos]? = some false) :
+    pos - rankGo (rankLut hasChild) hasChild pos = (hasChild.take pos).count false := by
+  have hlt : pos < hasChild.length := by
+    cases hl : hasChild[pos]? with
+    | none => rw [hl] at h; cases h
+    | some _ => exact (List.getElem?_eq_some_iff.1 hl).1
+  rw [rankGo_eq_rank _ _ hlt]
+  exact valuePos_eq hasChild pos h
+
+/-- `childNodeID(pos) = Rank(hasChild, pos)`: a label with child is the `Rank`-th such label, so
+its child is the `Rank`-th node after the root in level order -/
+theorem louds_childNodeID (hasChild : List Bool) (pos : Nat) (h : hasChild[pos]? = some true) :
+    rankGo (rankLut hasChild) hasChild pos = (hasChild.take pos).count true + 1 := by
+  have hlt : pos < hasChild.length := by
+    cases hl : hasChild[pos]? with
+    | none => rw [hl] at h; cases h
+    | some _ => exact (List.getElem?_eq_some_iff.1 hl).1
+  rw [rankGo_eq_rank _ _ hlt]
+  exact rank_of_set hasChild pos h
+
+end Layer2
 
 /-! ### ties to the facts regenerated from /repo's source (`lvh extract`) -/
 section Ties
